@@ -354,3 +354,5 @@ def run(ctx):
     # validate() abandon the error iterator at its first element)
     from . import scope
     scope.rule_pairing(ctx, "R4.6")
+    # "repeating any call yields identical results": no answer of the resolver is cached under a key that omits the scope
+    scope.rule_memo_scope_free(ctx, "R4.6m")
